@@ -150,7 +150,7 @@ def decodeTunnelledQuery (K : Consts) (req : Req) : Res Req :=
             | .err => .err
             | .unmodelled r => .unmodelled r
             | .panic => .panic
-          else .ok req
+          else .err       -- default: an unsupported (or missing, or unparsable: mediaType "") outer Content-Type
 
 /-! ## the de-tunnelling call site in `rootNode.ServeHTTP` -/
 
